@@ -688,6 +688,13 @@ func (p *Posix) createObjVersion(bucket, key string, size int64, acc auth.Accoun
 	}
 	defer sf.Close()
 
+	// the caller's size stems from an earlier stat of the path: another
+	// upload may have replaced the object since. Preallocate for the file
+	// that is actually preserved.
+	if sfi, err := sf.Stat(); err == nil {
+		size = sfi.Size()
+	}
+
 	var versionId string
 	data, err := p.meta.RetrieveAttribute(sf, bucket, key, versionIdKey)
 	if err != nil && !errors.Is(err, meta.ErrNoSuchKey) {
